@@ -20,9 +20,10 @@ func init() {
 			"(R4) the limit setter enforces the minimum of 2 (finite-valuation propagation) and the blocking variants return the function's error. " +
 			"(R5) reporting an error never blocks: ModuleError.Report hands the report to the reporting channel in a non-blocking select (the recovery handlers call it before they conclude the microtask). " +
 			"(R6) every clearance request is made with the caller's delay when it was tested positive and otherwise with the default constant of that same priority (table: medium -> defaultMediumPriorityMaxDelay, low -> defaultLowPriorityMaxDelay); " +
+			"(R7) the recovery code of a microtask never invokes methods of the recovered panic value (= C06-R6): a second panic inside the handler skips concludeMicroTask and leaks both counts; " +
 			"NOT decided: the concurrency bound under real races between the scheduler and finishing tasks, exactly-once execution over all schedules.",
 		Rules: []ruleFn{c15R1, c15R2, c15R3, c15R4,
-			c15R5, c15R6},
+			c15R5, c15R6, borrowRule(c06R6, "C06-R6", "C15-R7", 3, nil)},
 	})
 }
 
